@@ -223,12 +223,12 @@ def main(pid, tier, replay_path=None):
                     lbehs, lst = [rp['lbbehaviour']], (0, 0)
                 else:
                     lst = lbmodel.exhaustive(sc, tier)
-                    lbehs = [lbmodel.f3_behaviour(sc)] + lbmodel.sim_behaviours(sc, 300 if tier == 'quick' else 6000, seed)
+                    lbehs = [lbmodel.f3_behaviour(sc)] + lbmodel.dev_behaviours(sc) + lbmodel.sim_behaviours(sc, 300 if tier == 'quick' else 6000, seed)
                 lres, ldied = lbmodel.run_behaviours(sc, binary, lbehs, 'lb')
                 if ldied:
                     raise vlib.Inconclusive('LinkBuffer model harness died in %s: %s' % ldied[0])
                 mism = 0
-                LCLS = {'C01': ('result', 'panic'), 'C02': ('stability', 'ledger-result'), 'C03': ('ledger', 'ledger-unread')}
+                LCLS = {'C01': ('result', 'panic', 'hang'), 'C02': ('stability', 'ledger-result'), 'C03': ('ledger', 'ledger-unread', 'hang')}
                 for b in lbehs:
                     r = lres.get(b['id'])
                     if not r:
@@ -267,7 +267,7 @@ def main(pid, tier, replay_path=None):
                 'failures_owned_by_sibling_properties': failed_other,
                 'known_findings_matched': sorted(known_hit),
                 'exhaustive': False,
-                'spec_modules': vlib.spec_hashes(['ByteQueue.tla', 'ByteQueueSim.tla']),
+                'spec_modules': vlib.spec_hashes(['ByteQueue.tla', 'ByteQueueSim.tla', 'LinkBuffer.tla']),
                 'explanation': 'states/transitions: exhaustive TLC run of ByteQueue.tla on MC_ByteQueue_small.cfg (spec sanity invariants); '
                                'traces_validated_against_impl: TLC -simulate behaviours of ByteQueue.tla executed step by step on the real LinkBuffer '
                                'with result, Len/MallocLen, readable content, live results, caller memory and pool ledger compared after every step',
